@@ -384,8 +384,9 @@ class Fn:
         params, state, chunk = dict(sp['params']), sp['state'], sp['chunk']
         kept = lambda stmts: [s for s in stmts if ast.unparse(s) not in sp['drop']]          # (top-level) pinned statements aside
         written = assigned(kept(loop[:-1]))
-        if [v for v in written if v in params and v not in dict(state)] or chunk in written or chunk in assigned(kept(pre[at[0] + 1:])):
-            gap(f, 'a parameter that is not part of the state (or the received chunk) is rebound')
+        first = assigned(kept(pre[at[0] + 1:]))
+        if assigned(pre[:at[0]]) or [v for v in written + first if v in params and v not in dict(state)] or chunk in written + first:
+            gap(f, 'a binding before the first receive, or a parameter that is not part of the state (or the received chunk) is rebound')
         sig = lambda names: ' '.join(f'({mangle(p)} : {COQ_TYPE[params[p]]})' for p in names)
         styp = ' * '.join(COQ_TYPE[t] for _, t in state)
         stup = '(' + ', '.join(mangle(v) for v, _ in state) + ')'
